@@ -77,6 +77,47 @@ def design_buffer(tier, seed):
     return {"states": states, "transitions": trans, "design": {"BufferInput.tla": runs}}
 
 
+def design_pegcore(tier, seed):
+    """design-level model checking of spec/PegMachine.tla composed with PegContract / PegDen (no code involved)"""
+    import re
+    import shutil
+    states = trans = 0
+    runs = []
+    # level 1: every operator over the atoms, all configurations; level 2: every operator over level-1 expressions,
+    # a seeded 1/Stride sample of the roots in quick, all of them in thorough
+    grid = [(1, 2, "TRUE", "TRUE", 1, 0), (2, 2, "FALSE", "FALSE", 48, seed % 48)] if tier == "quick" else \
+           [(1, 3, "TRUE", "TRUE", 1, 0), (2, 2, "TRUE", "FALSE", 1, 0)]
+    for (lv, ml, exo, allc, stride, off) in grid:
+        d = tempfile.mkdtemp(prefix="mcpeg", dir=vlib.CACHE)
+        cfg = os.path.join(d, "MC.cfg")
+        open(cfg, "w").write("SPECIFICATION Spec\nCONSTANTS Levels = %d MaxLen = %d ExcOps = %s AllCfgs = %s Stride = %d Offset = %d\n"
+                             "INVARIANTS NoVerdict ResultOK\nCHECK_DEADLOCK FALSE\n" % (lv, ml, exo, allc, stride, off))
+        rc, txt = vlib.run(["java", "-XX:+UseParallelGC", "-Xss64m", "-Xmx24g", "-cp", vlib.TLC_JAR, "tlc2.TLC", "-workers", "16",
+                            "-metadir", os.path.join(d, "md"), "-config", cfg, "MC_PegCore.tla"], 7000, cwd=vlib.SPEC)
+        shutil.rmtree(d, ignore_errors=True)
+        m = re.search(r"(\d+) states generated, (\d+) distinct states found", txt)
+        mi = re.search(r"Finished computing initial states: (\d+) distinct", txt)
+        if rc != 0 or not m:
+            if "is violated" in txt:
+                return {"verdicts": [{"p": "DESIGN", "why": "design-level: PegMachine composed with PegContract logs a verdict (Levels=%d)" % lv,
+                                      "rule": "PegMachine.tla", "a": txt[-3000:], "b": 0}], "states": states, "transitions": trans}
+            raise Broken("TLC failed on MC_PegCore.tla\n" + txt[-1500:])
+        trans += int(m.group(1))
+        states += int(m.group(2))
+        runs.append({"Levels": lv, "MaxLen": ml, "ExcOps": exo, "AllCfgs": allc, "Stride": stride,
+                     "runs": int(mi.group(1)) if mi else 0, "distinct": int(m.group(2))})
+    return {"states": states, "transitions": trans, "design": {"MC_PegCore.tla": runs}}
+
+
+def design_pegcore_for(pid):
+    def f(tier, seed):
+        r = design_pegcore(tier, seed)
+        for v in r.get("verdicts", []):
+            v["p"] = pid
+        return r
+    return f
+
+
 def design_analyze(tier, seed):
     """design-level model checking of spec/Analyze.tla against PegDen over all small grammars (no code involved)"""
     import re
@@ -114,6 +155,7 @@ PROPS = {
         "rule": DEN_RULE,
     },
     "C02": {
+        "extra": design_pegcore_for("C02"),
         "families": ["ctx", "core", "conv"],
         "must_count": ["req", "look", "cases"],
         "nontrivial_key": "req",
@@ -135,6 +177,7 @@ PROPS = {
                 "compared with PosOf by TLC",
     },
     "C05": {
+        "extra": design_pegcore_for("C05"),
         "families": ["exc"],
         "must_count": ["xcs", "raise", "cases"],
         "nontrivial_key": "xcs",
@@ -162,6 +205,7 @@ PROPS = {
                 "the result; a sanitizer abort ends the suite's process and is reported as a crash verdict",
     },
     "C04": {
+        "extra": design_pegcore_for("C04"),
         "families": ["act", "core"],
         "must_count": ["act", "cases"],
         "nontrivial_key": "act",
@@ -173,6 +217,7 @@ PROPS = {
                 "apply/apply0 nesting x input x configuration; non-trivial = action invocations validated by TLC",
     },
     "C08": {
+        "extra": design_pegcore_for("C08"),
         "families": ["exc", "act", "core"],
         "must_count": ["hook", "xcs", "cases"],
         "nontrivial_key": "hook",
@@ -337,6 +382,7 @@ PROPS = {
                 "neighbourhoods of every type limit and power of ten); non-trivial = every record",
     },
     "C01": {
+        "extra": design_pegcore_for("C01"),
         "families": ["core"],
         "level": L_DEN + "all depth<=1 grammars over the core operators and atoms plus a seeded sample of deeper, recursive "
                  "grammars, crossed with apply mode, top-level rewind mode and void-action attachment",
